@@ -118,6 +118,12 @@ def main():
                 seen_kf.add(v["key"])
         else:
             new.append(v)
+    if not ctx.lean_ok and not [v for v in new if not v["no_input"]]:
+        # a proof obligation / the model build no longer checks and the search found no NEW concrete failing input
+        # (known findings do not count): report it, naming what no longer checks.
+        if not [v for v in new if v["key"] == "lean-obligation"]:
+            new.append({"key": "lean-obligation", "what": "proof obligation / model build no longer checks: " + ctx.lean_log[-300:].replace("\n", " | "),
+                        "replay": {"kind": "obligation", "log": ctx.lean_log[-4000:], "theorems": ctx.obligations}, "no_input": True})
     level = getattr(mod, "LEVEL", "other")
     cov = ctx.coverage
     cov.setdefault("explanation", getattr(mod, "EXPLANATION", ""))
